@@ -216,6 +216,7 @@ func (r *Raft) info() Info {
 			}
 		}
 	}
+	snapIndex, _ := r.snaps.latest()
 	return Info{
 		CID:           r.cid,
 		NID:           r.nid,
@@ -223,7 +224,7 @@ func (r *Raft) info() Info {
 		Term:          r.term,
 		State:         r.state,
 		Leader:        r.leader,
-		SnapshotIndex: r.snaps.index,
+		SnapshotIndex: snapIndex,
 		FirstLogIndex: r.log.PrevIndex() + 1,
 		LastLogIndex:  r.lastLogIndex,
 		LastLogTerm:   r.lastLogTerm,
